@@ -123,7 +123,7 @@ class FragmentsGenerator:
             if name in visited:
                 return
             visited.add(name)
-            for dep in dependencies_dict[name]:
+            for dep in sorted(dependencies_dict[name]):
                 visit(dep)
             sorted_names.append(name)
 
